@@ -2,7 +2,23 @@
 //@include prelude/clitree_fmt_macro.rs
 verus! {
 // Unit cli_tree — C20 / C04 (`fixtures list`): src/fixtures/cli.rs print_fixtures_tree, print_tree_node,
-// has_visible_fixtures.  (compute_definition_usage_counts / get_unused_fixtures: unit cli_unused.)
+// has_visible_fixtures.  (compute_definition_usage_counts / get_unused_fixtures: unit cli_unused; the call of
+// compute_definition_usage_counts is a //@stub carrying the contract PROVED there.)
+//   L1: has_visible_fixtures == op_visible;  print_tree_node: out' == out + op_node(ctx, dirs, path, prefix, is_last, is_root);
+//       print_fixtures_tree: for every input li read off the index (list_inputs) list_post(out, out', li): out' == out +
+//       op_list_out(li, counts / autouse keys re-keyed along SOME enumeration orders of the two hash tables)
+//       (prelude/clitree_spec.rs, clitree_list_spec.rs; loop lemmas prelude/clitree_list_l1.rs, all PROVED)
+//   L2: prelude/clitree_l2.rs (lines per file, filters partition, counts == compute_definition_usage_counts == op_refs,
+//       --only-unused vs `fixtures unused`, cli.rs re-label test vs mod.rs is_editable_install_third_party, only below root)
+//       prelude/clitree_l2_order.rs (the output is a function of the index: hash enumeration order is irrelevant)
+//   stdout model: `out()` = uninterpreted function of the database value; every println! is replaced (@replace, token for
+//       token) by a stand-in of prelude/clitree_out.rs that appends ONE event holding the views of the values handed to
+//       println!; receivers become `&mut self` (T3).  A println! that is not replaced is rejected by Verus (UNDECIDED).
+//   assumed: prelude/clitree_btree.rs (BT1, BT2), prelude/clitree_shims.rs (CT1..CT12), prelude/clitree_out.rs (CT11), the
+//       @wrapexpr helpers below (CT10), and the shared preludes path / path_ext / path_strip / dashmap / hashset /
+//       hashmap / hashmap_ext / option_ext / iter_ext.
+//   anchors: `@after for N` counts `for` tokens (the `while let` of the ancestor walk is not one): loop 17 = 16th for,
+//       loop 19 = 18th for.  Removing a loop shifts them: UNDECIDED, never green.
 global size_of usize == 8;  // A6: 64-bit target
 pub mod pre {
 use super::*;
@@ -30,6 +46,7 @@ use super::*;
 //@include prelude/clitree_list_spec.rs
 //@include prelude/clitree_list_l1.rs
 //@include prelude/clitree_l2.rs
+//@include prelude/clitree_l2_order.rs
 } // mod pre
 use pre::*;
 
